@@ -60,6 +60,22 @@ class Ref:
         return hash((id(self.box), self.key if isinstance(self.key, (int, str)) else id(self.key)))
 
 
+class FnRef:
+    """pointer to a function of the module"""
+
+    def __init__(self, q):
+        self.q = q
+
+    def __eq__(self, o):
+        return isinstance(o, FnRef) and o.q == self.q
+
+    def __hash__(self):
+        return hash(('fnref', self.q))
+
+    def __repr__(self):
+        return '<&%s>' % self.q
+
+
 class Text(list):
     """an abstract C string: character codes followed by the terminator; records which positions were read through the
     evaluator (the length scan of strlen does not count)."""
@@ -428,6 +444,12 @@ class AEval:
 
     def binop(self, op, l, r, loc):
         try:
+            if self.typed and (isinstance(l, list) or isinstance(r, list)) and op in ('+', '-', '<', '<=', '>', '>=', '==', '!='):
+                # an array used as a pointer to its first element
+                if isinstance(l, list) and (isinstance(r, (int, Ref))) and not isinstance(r, bool):
+                    l = Ref(l, 0)
+                if isinstance(r, list) and (isinstance(l, (int, Ref))) and not isinstance(l, bool):
+                    r = Ref(r, 0)
             if isinstance(l, Ref) or isinstance(r, Ref):
                 # pointers into an array: p + k, k + p, p - k, p - q, and the comparisons of two pointers into one array
                 if op == '+' and isinstance(l, Ref) and isinstance(r, int):
@@ -503,6 +525,8 @@ class AEval:
                 return v
             if a[0] in ('True', 'False', 'None'):
                 return {'True': True, 'False': False, 'None': None}[a[0]]
+            if self.typed and self.module is not None and a[0] in self.module.funcs:
+                return FnRef(a[0])           # a function used as a value decays to a pointer to it
             if hasattr(self.module, 'const_node'):
                 cn = self.module.const_node(a[0])
                 if cn is not None:
@@ -526,6 +550,8 @@ class AEval:
             o = self.ev(a[0], env, depth)
             if isinstance(o, Ref):
                 o = o.get()          # p->f with p a pointer to an element of an array
+            if self.typed and isinstance(o, list) and o and isinstance(o[0], AObj):
+                o = o[0]             # array->f: the first element
             if isinstance(o, AObj):
                 if a[1] not in o.attrs:
                     raise AnalysisError('abstract evaluation: attribute %s of %s is not part of the abstraction (%s)' % (a[1], o.oid, e.loc))
@@ -544,12 +570,18 @@ class AEval:
         if k == 'incdec':
             ref = self.ref_of(a[2], env, depth)
             old = ref.get()
+            if self.typed and isinstance(old, list):
+                old = Ref(old, 0)        # a pointer initialised with the array itself
             d = 1 if a[0] == '++' else -1
             new = old.moved(d) if isinstance(old, Ref) else old + d
             if self.typed and a[2].k == 'var':
                 new = self._wrap(new, env.get('\x00ty:' + a[2].a[0]))
             ref.set(new)
             return old if a[1] else new
+        if k == 'assignexpr':
+            v = self.ev(a[1], env, depth)
+            self.store(a[0], v, env, depth)
+            return self.ev(a[0], env, depth) if self.typed else v       # the value as the target holds it (after conversion)
         if k == 'un':
             v = self.ev(a[1], env, depth)
             if a[0] == '!':
@@ -586,11 +618,15 @@ class AEval:
                     return Ref(o.attrs, t.a[1])
             if t.k == 'var' and t.a[0] in env:
                 return Ref(env, t.a[0])
+            if t.k == 'var' and self.module is not None and t.a[0] in self.module.funcs:
+                return FnRef(t.a[0])         # &function
             raise AnalysisError('abstract evaluation: address of %s at %s' % (show(t), e.loc))
         if k == 'deref':
             p = self.ev(a[0], env, depth)
             if isinstance(p, Ref):
                 return p.get()
+            if self.typed and isinstance(p, list):
+                return p[0]
             if isinstance(p, AObj):
                 return p            # *ptr where the abstraction holds the object itself
             raise AnalysisError('abstract evaluation: dereference of %r at %s' % (p, e.loc))
@@ -621,6 +657,21 @@ class AEval:
                     flds = lib.fields(cls)
                 except Exception:
                     flds = None
+                if not flds and '<' in cls:
+                    # a class nested in a template instantiation is indexed under the name of the template
+                    bare, depth_ = [], 0
+                    for ch in cls:
+                        if ch == '<':
+                            depth_ += 1
+                        elif ch == '>':
+                            depth_ -= 1
+                        elif depth_ == 0:
+                            bare.append(ch)
+                    try:
+                        flds = lib.fields(''.join(bare))
+                        cls = ''.join(bare)
+                    except Exception:
+                        flds = None
                 if flds:
                     from .cxx import int_type
                     if len(args) == 1 and isinstance(args[0], AObj) and (args[0].cls or '').replace('const ', '').strip() == cls:
@@ -685,6 +736,9 @@ class AEval:
                 else:
                     raise AnalysisError('abstract evaluation: del %s at %s' % (show(t), e.loc))
             return None
+        if self.typed and recv_e is None and isinstance(env.get(name), FnRef):
+            name = env[name].q               # a call through a pointer to function held in a local
+            short = name.split('.')[-1]
         if not self.typed and recv_e is None:
             if name in ('TypedDict', 'NamedTuple', 'TypeVar', 'NewType'):
                 return None          # a typing declaration inside a function: no run-time content
@@ -693,6 +747,10 @@ class AEval:
         if name in self.intr or short in self.intr:
             fn = self.intr.get(name) or self.intr[short]
             recv = self.ev(recv_e, env, depth) if recv_e is not None else None
+            if self.typed and isinstance(recv, Ref):
+                recv = recv.get()
+            if self.typed and isinstance(recv, list) and recv and isinstance(recv[0], AObj):
+                recv = recv[0]           # array->m(): the first element
             byref = getattr(fn, 'byref', ())
             args = [self.ref_of(x, env, depth) if i in byref else self.ev(x, env, depth) for i, x in enumerate(args_e)]
             if getattr(fn, 'with_exprs', False):
@@ -702,6 +760,8 @@ class AEval:
             recv = self.ev(recv_e, env, depth)
             if self.typed and isinstance(recv, Ref):
                 recv = recv.get()        # p->m() with p a pointer to an element of an array
+            if self.typed and isinstance(recv, list) and recv and isinstance(recv[0], AObj):
+                recv = recv[0]
             if self.typed and isinstance(recv, AObj) and self.module is not None and hasattr(self.module, 'select'):
                 # C++ member function: overload by arity and by the integer types of the reference arguments
                 at = []
@@ -765,8 +825,31 @@ class AEval:
                         y = y.a[2]
                     at.append(env.get('\x00ty:' + y.a[0]) if y.k == 'var' else None)
                 callee = self.module.select(name, len(args_e), at)
+                cands = self.module.overloads.get('%s/%d' % (name, len(args_e)), [])
+                if len(cands) > 1 and not any(c_.byref for c_ in cands):
+                    # instantiations / overloads that differ in a parameter of class type: the one that takes the class of the argument
+                    vals = [self.ev(x, env, depth) for x in args_e]
+                    def fits(c_):
+                        for v_, t_ in zip(vals, c_.ptypes):
+                            if isinstance(v_, AObj) and v_.cls and t_ and v_.cls.split('::')[-1] not in t_:
+                                return False
+                        return True
+                    ok_ = [c_ for c_ in cands if fits(c_)]
+                    if ok_ and any(isinstance(v_, AObj) and v_.cls for v_ in vals):
+                        return self.call_function(name, vals, depth + 1, chosen=ok_[0])
+                    if callee is not None and not callee.byref:
+                        return self.call_function(name, vals, depth + 1, chosen=callee)     # the arguments are evaluated once
             if callee is None:
                 callee = self.module.funcs.get('%s/%d' % (name, len(args_e))) or self.module.funcs.get(name)
+            if '::operator' in name and args_e:
+                # a member operator written as a call: the object is the first operand
+                mem = self.module.funcs.get('%s/%d' % (name, len(args_e) - 1))
+                if mem is not None and (callee is None or len(callee.params) != len(args_e)):
+                    obj = self.ev(args_e[0], env, depth)
+                    if isinstance(obj, Ref):
+                        obj = obj.get()
+                    rest = [self.ref_of(x, env, depth) if i in mem.byref else self.ev(x, env, depth) for i, x in enumerate(args_e[1:])]
+                    return self.call_function(name, rest, depth + 1, recv=obj, chosen=mem)
         byref = getattr(callee, 'byref', ()) if callee is not None else ()
         args = [self.ref_of(x, env, depth) if i in byref else self.ev(x, env, depth) for i, x in enumerate(args_e)]
         if callee is not None:
